@@ -5,7 +5,7 @@ let err_name = function
   | BadPrecision -> "BadPrecision" | ComponentCount -> "ComponentCount" | BadSampling -> "BadSampling"
   | BadScanScript -> "BadScanScript" | BadProgScript -> "BadProgScript" | MissingData -> "MissingData"
   | BadMcuSize -> "BadMcuSize" | FractSample -> "FractSample" | ConversionNotImpl -> "ConversionNotImpl"
-  | ArithNotImpl -> "ArithNotImpl" | BadDctCoef -> "BadDctCoef" | MissingCode -> "MissingCode"
+  | ArithNotImpl -> "ArithNotImpl" | BadDctCoef -> "BadDctCoef" | MissingCode -> "MissingCode" | NoQuantTable -> "NoQuantTable" | NoHuffTable -> "NoHuffTable"
 
 let zi = z_of_int
 let iz = int_of_z
@@ -36,9 +36,9 @@ let () = iter_lines (fun line ->
   let fs = fields line in
   let w0 = words (List.nth fs 0) in
   let variant = (match w0 with k :: _ -> k | [] -> "") in
-  let w0 = (match w0 with "rst" :: r -> "setup" :: r | "raw" :: _ :: r -> "setup" :: r | l -> l) in
+  let w0 = (match w0 with "rst" :: r | "hdr" :: r -> "setup" :: r | "raw" :: _ :: r -> "setup" :: r | l -> l) in
   match w0 with
-  | "setup" :: w :: h :: incomp :: ncomp :: prec :: lossless :: raw :: arith :: _opt :: _smooth :: ri :: rir :: _ ->
+  | "setup" :: w :: h :: incomp :: ncomp :: prec :: lossless :: raw :: arith :: opt_s :: _smooth :: ri :: rir :: _ ->
       let comps = List.map (fun p -> match String.split_on_char ',' p with
                                      | [a; b] -> { c_h = zi (int_of_string a); c_v = zi (int_of_string b) }
                                      | _ -> failwith "bad comp") (words (List.nth fs 1)) in
@@ -73,7 +73,50 @@ let () = iter_lines (fun line ->
                    | (_, Inr l) ->
                        Buffer.add_string b (" dri=" ^ String.concat "," (List.map (fun x -> string_of_int (iz x)) l));
                        if not (dri_run Z0 Z0 l) then Buffer.add_string b " OOB"
-                   | _ -> Buffer.add_string b " dri=?"));
+                   | _ -> Buffer.add_string b " dri=?");
+                if variant = "hdr" then begin
+                  let lossless = t.t_lossless in
+                  let ncs = iz t.t_ncomp in
+                  let compsl = List.init ncs (fun i ->
+                    let cc = if lossless then { c_h = zi 1; c_v = zi 1 } else List.nth comps i in
+                    { k_id = zi i; k_h = cc.c_h; k_v = cc.c_v; k_tq = Z0; k_td = Z0; k_ta = Z0 }) in
+                  let img = { im_prec = c.f_prec; im_width = c.f_width; im_height = c.f_height; im_comps = compsl;
+                              im_arith = c.f_arith; im_progressive = t.t_progressive; im_lossless = lossless;
+                              im_jfif = None; im_adobe = None;
+                              im_dc_L = List.init 16 (fun _ -> Z0); im_dc_U = List.init 16 (fun _ -> zi 1);
+                              im_ac_K = List.init 16 (fun _ -> zi 5) } in
+                  let intervals = (match image_intervals c t with (_, Inr l) -> l | _ -> []) in
+                  let sl = scans_of c t.t_ncomp in
+                  let params k = (match c.f_script with
+                    | Some scs -> let s = List.nth scs k in (s.s_Ss, s.s_Se, s.s_Ah, s.s_Al)
+                    | None -> if lossless then (zi 1, Z0, Z0, Z0) else (Z0, zi 63, Z0, Z0)) in
+                  let nsc = List.length sl in
+                  let scans kz = let k = iz kz in
+                    if k < 0 || k >= nsc then { sp_comps = []; sp_Ss = Z0; sp_Se = Z0; sp_Ah = Z0; sp_Al = Z0; sp_ri = Z0 } else
+                    let (ss, se, ah, al) = params k in
+                    { sp_comps = snd (List.nth sl k); sp_Ss = ss; sp_Se = se; sp_Ah = ah; sp_Al = al; sp_ri = List.nth intervals k } in
+                  let q0 = List.map (fun bq -> quant_entry bq (zi 50) true) g_std_luminance_quant_tbl in
+                  let tb a bb = Some { t_a = a; t_b = bb; t_sent = false } in
+                  let tbls = List.init 12 (fun i -> if i = 0 then tb q0 [] else if i = 4 then tb (drop 1 g_std_dc_bits) g_std_dc_vals
+                                                     else if i = 8 then tb (drop 1 g_std_ac_bits) g_std_ac_vals else None) in
+                  let st0 = { w_tbls = tbls; w_last_ri = Z0 } in
+                  let opt = optimize_eff c.f_arith lossless t.t_progressive (opt_s <> "0") (iz c.f_prec = 12) in
+                  let dcr = dcrefine_of scans in
+                  let total = if opt then 2 * nsc else nsc in
+                  (match run_master (zi nsc) opt dcr with
+                   | None -> Buffer.add_string b " hdr=nofuel"
+                   | Some ev ->
+                       (match assemble img scans (fun _ -> []) (regen_std img scans (fun _ _ -> ([], []))) ev st0 with
+                        | Inl e -> Buffer.add_string b (" hdr=err " ^ err_name e)
+                        | Inr tr ->
+                            Buffer.add_string b " hdr=";
+                            List.iter (fun m -> match m with
+                              | MkData (_, _) -> Buffer.add_string b "|"
+                              | MkDHT (idx, _, _) when opt -> Buffer.add_string b (Printf.sprintf "ffc4%02x.." (iz idx))
+                              | _ -> Buffer.add_string b (hex_of_bytes (encode_mk m))) tr));
+                  let pt = pass_trace (nat_of_int (total + 1)) opt dcr (zi total) { m_pass_type = Main_pass; m_scan = Z0; m_pass = Z0 } in
+                  Buffer.add_string b (Printf.sprintf " passes=%d:%s" total (String.concat "," (List.map (fun x -> string_of_int (iz x)) pt)))
+                end);
            print_endline (Buffer.contents b))
   | [ "blk"; prec; opt; _destbuf ] ->
       let prec = int_of_string prec in
@@ -107,7 +150,7 @@ let () = iter_lines (fun line ->
         Printf.printf "ok q=%s\n" (pr_ints (List.map (fun b -> iz (quant_entry (zi b) (zi 100) (force <> "0"))) basic))
       else if List.exists (fun b -> b land 65535 = 0) basic && iz g_ZERO_QUANT_REJECTED = 1 then print_endline "err NoQuantTable"
       else Printf.printf "ok q=%s\n" (pr_ints (List.map (fun b -> b land 65535) basic))
-  | "tjc" :: _ | "tjseq" :: _ -> print_endline "any"
+  | "tjc" :: _ | "tjseq" :: _ | "tn" :: _ -> print_endline "any"
   | "ll" :: api :: prec :: psv :: pt :: _ ->
       (* lossless: jpeg_enable_lossless rejects psv outside 1..7 and pt >= precision; precision 2..16 *)
       if api <> "0" then print_endline "any"
